@@ -84,7 +84,7 @@ class ExternModule:
 
     def __init__(self, name, attrs=None):
         self.name = name
-        self.attrs = attrs or {}
+        self.attrs = attrs if attrs is not None else {}
 
     def __repr__(self):
         return f'<extern {self.name}>'
@@ -284,7 +284,7 @@ class Ctx:
     def fresh(self, base, sort=None):
         n = next(self.counter)
         name = f'{base}!{n}'
-        sort = sort or z3.RealSort()
+        sort = z3.RealSort() if sort is None else sort
         return z3.Const(name, sort)
 
     def real(self, base):
